@@ -57,6 +57,9 @@ TEXT = [
     ('lu2-short', 'break', ['C08', 'C07'], UT, "                for i in range(1,d):\n                    dF -= numpy.dot(L.data[d-i,p], U.data[i,p])\n                dF += numpy.dot(w.T, A.data[d,p])\n                dF = numpy.dot(L0inv, numpy.dot(dF, U0inv))\n\n                U.data[d,p] = numpy.dot(numpy.triu(dF, 0), U.data[0,p])\n                L.data[d,p] = numpy.dot(L.data[0,p], numpy.tril(dF, -1))\n\n        return PIV, L, U", "                for i in range(1,d-1):\n                    dF -= numpy.dot(L.data[d-i,p], U.data[i,p])\n                dF += numpy.dot(w.T, A.data[d,p])\n                dF = numpy.dot(L0inv, numpy.dot(dF, U0inv))\n\n                U.data[d,p] = numpy.dot(numpy.triu(dF, 0), U.data[0,p])\n                L.data[d,p] = numpy.dot(L.data[0,p], numpy.tril(dF, -1))\n\n        return PIV, L, U"),
     ('solve-degree-index', 'break', ['C12'], ALG, "tmp[:,:] -= numpy.dot(A_data[k,p,:,:],y_data[d-k,p,:,:])\n                y_data[d,p,:,:] = numpy.linalg.solve(A_data[0,p,:,:],tmp)\n\n        return out\n\n\n    @classmethod\n    def _solve_non_UTPM_A", "tmp[:,:] -= numpy.dot(A_data[k,p,:,:],y_data[D-1-k,p,:,:])\n                y_data[d,p,:,:] = numpy.linalg.solve(A_data[0,p,:,:],tmp)\n\n        return out\n\n\n    @classmethod\n    def _solve_non_UTPM_A"),
     # ---------------------------------------------------------------- tracer / pullback protocol
+    ('pbdot-drop-ybar', 'break', ['C03'], ALG, "        ybar_data += cls._dot(cls._transpose(x_data), zbar_data, out = ybar_data.copy())\n", "        pass\n"),
+    ('pullback-dead-exit', 'break', ['C03', 'C04', 'C06'], TR, "            # case if the function F has output, e.g. y1 = F(x)\n            args = [F.xbar] + args + [F.x]", "            if F.xbar == 0:\n                return F\n            args = [F.xbar] + args + [F.x]"),
+    ('mul-raw-broadcast', 'break', ['C11', 'C02'], UT, "            x_data, y_data = UTPM._broadcast_arrays(self.data, rhs.reshape((1,1)+rhs_shape))\n            return UTPM(x_data * y_data)", "            return UTPM(self.data * rhs)"),
     ('pbneg-overwrite', 'break', ['C03'], UT, "        xbar -= ybar\n        return xbar", "        xbar[...] = -1*ybar\n        return xbar"),
     ('amul-overwrite', 'break', ['C03'], ALG, "            z_data[d,:,...] +=  numpy.sum(x_data[:d+1,:,...] * y_data[d::-1,:,...], axis=0)", "            z_data[d,:,...] =  numpy.sum(x_data[:d+1,:,...] * y_data[d::-1,:,...], axis=0)"),
     ('pbsqrt-swap', 'break', ['C03'], UT, "        cls._pb_sqrt(ybar.data, x.data, y.data, out = xbar.data)", "        cls._pb_sqrt(ybar.data, y.data, x.data, out = xbar.data)"),
